@@ -46,6 +46,7 @@ type scenario struct {
 	cancel    int  // clients 0..cancel-1 are cancelled concurrently with the broadcast
 	stalled   bool // client `cancel` (first staying one) never reads its reload until phase C
 	late      bool // one more client connects concurrently with the broadcast
+	churn     bool // before the broadcast: client0 disconnects, then a new client connects (sequentially)
 	extraPing int
 }
 
@@ -98,6 +99,24 @@ func (sc scenario) build() (func(), func(*vsched.Exec) string, func() string) {
 				return
 			}
 		}
+		churnClient := -1
+		if sc.churn {
+			// client0 leaves, and only then a new client arrives: the newcomer must not disturb the clients that stayed
+			cancels[0]()
+			cancelled[0] = true
+			vsched.Quiesce("churn: client0 gone")
+			ws = append(ws, nil)
+			cancels = append(cancels, nil)
+			done = append(done, false)
+			cancelled = append(cancelled, false)
+			churnClient = len(ws) - 1
+			connect(churnClient)
+			vsched.Quiesce("churn: newcomer connected")
+			if ws[churnClient].pings() < 1 {
+				msg = "SETUP newcomer did not ping"
+				return
+			}
+		}
 		// phase B: broadcast, concurrent disconnects, a late joiner, one more ping
 		if sc.extraPing > 0 {
 			vsched.SetTimeHorizon(int64(5 * time.Second)) // every connected client's next ping may fire
@@ -121,8 +140,17 @@ func (sc scenario) build() (func(), func(*vsched.Exec) string, func() string) {
 			msg = "BLOCKED broadcaster: Send did not return while a client was slow or gone"
 			return
 		}
+		if churnClient >= 0 {
+			if got := ws[churnClient].reloads(); got != sc.sends {
+				msg = fmt.Sprintf("LOST the client that connected after client0 left received %d of %d reload events", got, sc.sends)
+				return
+			}
+		}
 		for i := sc.cancel; i < n; i++ {
 			if sc.stalled && i == sc.cancel {
+				continue
+			}
+			if sc.churn && i == 0 {
 				continue
 			}
 			if got := ws[i].reloads(); got != sc.sends {
@@ -153,10 +181,10 @@ func (sc scenario) build() (func(), func(*vsched.Exec) string, func() string) {
 		}
 	}
 	verdict := func(x *vsched.Exec) string {
-		if o := vsched.DefaultOutcome(x); o != "" {
-			return o
+		if msg != "" && len(x.Panics) == 0 {
+			return msg
 		}
-		return msg
+		return vsched.DefaultOutcome(x)
 	}
 	return body, verdict, func() string {
 		if key == nil {
@@ -196,6 +224,7 @@ func main() {
 		{name: "2 clients, 1 broadcast, nobody leaves, a ping is due", clients: 2, sends: 1, cancel: 0, extraPing: 1},
 		{name: "2 clients, 2 broadcasts, client0 is a stalled reader", clients: 2, sends: 2, cancel: 0, stalled: true},
 		{name: "1 client + late joiner, 1 broadcast", clients: 1, sends: 1, cancel: 0, late: true},
+		{name: "churn: 2 clients, client0 leaves, a new client connects, then 1 broadcast", clients: 2, sends: 1, cancel: 0, churn: true},
 	}
 	if run.Thorough() {
 		scenarios = append(scenarios,
